@@ -287,7 +287,9 @@ func (vc *VC) call(in ssa.Instruction, c *ssa.CallCommon, st *State, reach Term)
 		name = "interface method " + c.Method.FullName()
 	}
 	vc.assume("call without contract: result unconstrained, reachable memory havocked, assumed not to panic: " + name)
+	preCall := st.clone()
 	vc.havocForCall(c, st)
+	vc.keepUnreachable(preCall, st, reach)
 	res := vc.freshTyped(st, "call", rt, reach)
 	vc.mayPanicCall(c, res, st, reach)
 	return res
